@@ -436,6 +436,32 @@ def _cached(env):
     return env
 
 
+def fancy_index_permutations():
+    """integer index arrays that are not monotone (incl. the ones that start at their minimum and end at their maximum),
+    repeated entries, and a transposition written with two index arrays"""
+    out = []
+    perms = [[0, 2, 1, 3], [0, 2, 2, 3], [0, 1, 3, 2], [1, 0, 3, 2], [3, 2, 1, 0], [0, 3], [0, 1, 2, 3], [2, 2, 2], [0, 2, 1, 3, 0]]
+    for ix in perms:
+        def se(c):
+            env = Env(c, (4,))
+            k = env.const((4,), "k")
+            return env, {"x": env.x, "e": k * env.x + 1.0}, {"x": env.vals(env.x), "e": k * env.vals(env.x) + 1.0}
+        out += _run("rsome.lp:VarSub.to_affine", f"x(4,)[{ix}] + 0", se, lambda o, ix=ix: o["x"][ix] + 0, lambda v, ix=ix: v["x"][ix] + 0)
+        out += _run("rsome.lp:VarSub.to_affine", f"2 * x(4,)[{ix}]", se, lambda o, ix=ix: 2.0 * o["x"][ix], lambda v, ix=ix: 2.0 * v["x"][ix])
+        out += _run("rsome.lp:Affine.__getitem__", f"affine(4,)[{ix}]", se, lambda o, ix=ix: o["e"][ix], lambda v, ix=ix: v["e"][ix])
+        out += _run("rsome.lp:VarSub.sum", f"x(4,)[{ix}].sum()", se, lambda o, ix=ix: o["x"][ix].sum(), lambda v, ix=ix: v["x"][ix].sum())
+    rows, cols = np.arange(3)[None, :], np.arange(3)[:, None]
+    for name, ix in (("transpose by index arrays", (rows, cols)), ("anti-diagonal", ([0, 1, 2], [2, 1, 0])), ("row permutation", ([2, 0, 1],)),
+                     ("block out of order", (np.array([[0, 2], [1, 0]]), np.array([[1, 1], [0, 2]])))):
+        def se2(c):
+            env = Env(c, (3, 3))
+            return env, {"x": env.x}, {"x": env.vals(env.x)}
+        out += _run("rsome.lp:VarSub.to_affine", f"X(3,3)[{name}] * 1", se2, lambda o, ix=ix: o["x"][ix] * 1.0, lambda v, ix=ix: v["x"][ix] * 1.0)
+        out += _run("rsome.lp:VarSub.to_affine", f"(X(3,3)[{name}] + 1).sum(0)", se2, lambda o, ix=ix: (o["x"][ix] + 1.0).sum(axis=0),
+                    lambda v, ix=ix: (np.asarray(v["x"][ix], dtype=object) + 1.0).sum(axis=0))
+    return out
+
+
 def triangular(shapes):
     out = []
     for sv in shapes:
@@ -560,6 +586,21 @@ def biaffine(shapes):
         out += _run(R + "__getitem__", f"(x*z+x){sx}[...,1:]", se, lambda o: o["e"][..., 1:], lambda v: v["e"][..., 1:])
         out += _run(R + "__matmul__", f"(x*z+x){sx} @ const.T", se, lambda o: o["e"] @ o["k"].T, lambda v: v["e"] @ v["k"].T)
         out += _run(R + "__rmatmul__", f"const @ (x*z+x){sx}.T", se, lambda o: o["k"] @ o["e"].T, lambda v: v["k"] @ v["e"].T)
+    # element-wise products with RANDOM AFFINE EXPRESSIONS whose entries depend on several (or no) random variables
+    def se_r(c):
+        env = Env(c, (3,), None, (4,))
+        B = env.const((3, 4), "B")
+        mu = env.const((3,), "mu")
+        return env, {"x": env.x, "z": env.z, "B": B, "mu": mu}, {"x": env.vals(env.x), "z": env.vals(env.z), "B": B, "mu": mu}
+    M = "rsome.lp:Affine.__mul__"
+    out += _run(M, "x(3,) * (B @ z(4,) + mu)", se_r, lambda o: o["x"] * (o["B"] @ o["z"] + o["mu"]), lambda v: v["x"] * (v["B"] @ v["z"] + v["mu"]))
+    out += _run(M, "(B @ z + mu) * x", se_r, lambda o: (o["B"] @ o["z"] + o["mu"]) * o["x"], lambda v: (v["B"] @ v["z"] + v["mu"]) * v["x"])
+    out += _run(M, "x * (z[:3] + z[1:])", se_r, lambda o: o["x"] * (o["z"][:3] + o["z"][1:]), lambda v: v["x"] * (v["z"][:3] + v["z"][1:]))
+    out += _run(M, "x * z.sum()", se_r, lambda o: o["x"] * o["z"].sum(), lambda v: v["x"] * v["z"].sum())
+    out += _run(M, "x * (mu + 0*z[:3]) [entries without a random part]", se_r, lambda o: o["x"] * (o["mu"] + 0.0 * o["z"][:3]), lambda v: v["x"] * (v["mu"] + 0.0 * v["z"][:3]))
+    out += _run(M, "(2x+1) * (z[:3] - 2*z[3])", se_r, lambda o: (2.0 * o["x"] + 1.0) * (o["z"][:3] - 2.0 * o["z"][3]), lambda v: (2.0 * v["x"] + 1.0) * (v["z"][:3] - 2.0 * v["z"][3]))
+    out += _run(M, "x[:2].reshape((2,1)) * (B[:2] @ z).reshape((1,2))", se_r, lambda o: o["x"][:2].reshape((2, 1)) * (o["B"][:2] @ o["z"]).reshape((1, 2)),
+                lambda v: v["x"][:2].reshape((2, 1)) * (v["B"][:2] @ v["z"]).reshape((1, 2)))
     # a bi-affine expression broadcast against constants / expressions along trailing and inner axes
     for se_shape, other_shape in (((2, 1), (2, 3)), ((2, 1), (1, 3)), ((3,), (2, 3)), ((1, 3), (2, 1)), ((2, 1, 1), (2, 3))):
         def se(c, se_shape=se_shape, other_shape=other_shape):
@@ -665,6 +706,8 @@ def jobs(tier):
     js.append({"name": "reshaping", "kind": "reshaping", "shapes": [list(s) for s in sh]})
     js.append({"name": "triangular", "kind": "triangular", "shapes": [[2, 2], [2, 3], [3, 2], [4, 2], [5, 1], [3], [1, 1]]})
     js.append({"name": "stacking", "kind": "stacking"})
+    js.append({"name": "fancy-index-permutations", "kind": "fancy"})
+    js.append({"name": "dro-fancy-index-permutations", "kind": "fancy", "front": "dro"})
     js.append({"name": "methods", "kind": "methods"})
     js.append({"name": "dro-methods", "kind": "methods", "front": "dro"})
     js.append({"name": "stateful-reuse", "kind": "reuse"})
@@ -730,6 +773,8 @@ def _run_job(job):
         return stateful_reuse()
     if k == "methods":
         return methods_on_variables_and_rules()
+    if k == "fancy":
+        return fancy_index_permutations()
     if k == "biaffine":
         return biaffine(None)
     if k == "sparse_const":
